@@ -21,9 +21,10 @@ ob("ANIreadann_room_b", "C11", entry="h_ANIreadann_room", enforce="ANIreadann", 
    bound="stored element <= 12 bytes, maxlen <= 12", defines=["H4V_CEX"], unwind=14, **AN)
 
 prop("C11",
-     residual="whole-API histories: annotation trees (ANIcreate_ann_tree/ANIaddentry over tbbt), ANannlist/ANnumann listing, "
-              "ANIwriteann rewrite via descriptor reuse, id<->tag/ref maps over the atom group, reopen, the DFAN layer (dfan.c); "
-              "only the key codec, type<->tag maps, the key order, ANIannlen and ANIreadann are decided",
+     residual="decided per call: key codec, type<->tag maps, key order, ANIannlen, ANIreadann, ANIwriteann (first write / rewrite, c11_an_ext.py), "
+              "ANIcreate (over a one-entry tree / one-element DD model, ANIcreate_ann_tree by ASSUMED contract), DFANIgetannlen, DFANIgetann.  "
+              "NOT decided: whole-API histories, ANIcreate_ann_tree/ANIaddentry over the real tbbt, ANannlist/ANnumann listing, id<->tag/ref maps "
+              "over the atom group, reopen, DFANIlocate/DFANIopen (ASSUMED contracts) and the put side of dfan.c",
      assumptions=["A-TBBT: tbbt.c is not verified",
                   "A-AN-HSTUB: Hstartread/Hinquire/Hlength/Hread/Hendaccess are modelled for one ordinary (non-special) element; "
                   "Hread follows hfile.c (length<0 fails, length 0 or beyond the end = read to the end)"])
